@@ -1359,6 +1359,15 @@ func (md *mapdet) sortedBeforeUse(fn *ssa.Function, info *types.Info, body *ast.
 			if isLHS {
 				continue
 			}
+			// res := s (a second name for the same slice): sorting res sorts
+			// s; accepted when s itself is not touched any more afterwards
+			if len(as.Lhs) == 1 && len(as.Rhs) == 1 && as.Rhs[0] == ast.Expr(u.id) {
+				if lid, ok := as.Lhs[0].(*ast.Ident); ok {
+					if ao := info.ObjectOf(lid); ao != nil && ao != obj && u.id == uses[len(uses)-1].id {
+						return md.sortedBeforeUse(fn, info, body, ao, as.End(), lc, elemIsKey, elem)
+					}
+				}
+			}
 		}
 		// range over the slice with an order-insensitive body
 		if rs, ok := parent.(*ast.RangeStmt); ok && rs.X == ast.Expr(u.id) {
